@@ -186,7 +186,7 @@ VMC_HARNESS(stop_fused, "C03") {
 }
 
 // H6: inplace_stop_token_adapter over a foreign token type: subscribe/unsubscribe racing a request
-VMC_HARNESS(stop_adapter, "C03,C18") {
+VMC_HARNESS(stop_adapter, "C03,C18,C12") {
   Clock k; CbMon c;
   kit::probe_stop_source ext;
   int rs = 0, re = 0, ss = 0, se = 0, us = 0, ue = 0;
@@ -197,7 +197,7 @@ VMC_HARNESS(stop_adapter, "C03,C18") {
     ss = k.tick();
     inplace_stop_token tok = ad.subscribe(ext.get_token());
     se = k.tick();
-    vmc::check(tok.stop_possible(), "C03,C18", "adapter-possible", "adapted token of a stoppable token reports stop impossible");
+    vmc::check(tok.stop_possible(), "C03,C18,C12", "adapter-possible", "adapted token of a stoppable token reports stop impossible");
     {
       auto fn = [&]() noexcept { ++c.ran; c.ran_at = k.tick(); };
       inplace_stop_callback<decltype(fn)> cb(tok, fn);
